@@ -162,8 +162,13 @@ func skipValue(b []byte, tp ttype) (n int, err error) {
 
 func decodeFixedSizeTypes(t ttype, b []byte, p unsafe.Pointer) int {
 	switch t {
-	case tBOOL, tBYTE:
-		*(*byte)(p) = b[0] // XXX: for tBOOL 1->true, 2->true/false
+	case tBOOL:
+		// never store a byte other than 0 or 1 in a Go bool: such a "bool" is neither
+		// true nor false (two distinct "true" keys in a map[bool]T, b == true is false)
+		*(*bool)(p) = b[0] == 1 // same as thrift.BinaryProtocol.ReadBool
+		return 1
+	case tBYTE:
+		*(*byte)(p) = b[0]
 		return 1
 	case tDOUBLE, tI64:
 		*(*uint64)(p) = binary.BigEndian.Uint64(b)
